@@ -10,7 +10,7 @@
     [fixed] = false is the code of the pinned tree: a child is asked for what the first [length] entries of its
     parent need while the parent is rebuilt from its whole buffers.  *)
 From Coq Require Import ZArith List Bool Lia.
-From AwkV Require Export Base Layout Valid Types.
+From AwkV Require Export Base Layout Valid Types AtAxis.
 Import ListNotations.
 Open Scope Z_scope.
 
@@ -484,9 +484,7 @@ Definition nd_equiv (x y : ndarr) : Prop :=
    RegularArray) and validity bitmaps (least-significant bit first, padded to whole bytes). *)
 Definition rebase (o : list Z) : list Z :=
   match o with [] => [] | o0 :: _ => map (fun x => x - o0) o end.
-(* counts -> zero-based offsets (compact_offsets64 of a ListArray: cumulative stop - start) *)
-Fixpoint offsets_from (acc : Z) (counts : list Z) : list Z :=
-  match counts with [] => [acc] | n :: ns => acc :: offsets_from (acc + n) ns end.
+(* counts -> zero-based offsets (compact_offsets64 of a ListArray: cumulative stop - start; [offsets_from] of AtAxis.v) *)
 Definition compact_offsets (s e : list Z) : list Z :=
   offsets_from 0 (map (fun ab : Z * Z => snd ab - fst ab) (zip s e)).
 
